@@ -534,6 +534,17 @@ func tailCallsFamily(budget time.Duration) mc.Family {
 		prog{"/a [1 2 3] def /b [4 5] def a { b { pop a 2 8 put } forall } forall", "1 2 8"},
 		prog{"/a [1 2 3] def a { a 1 [4 5] putinterval } forall", "1 4 5"},
 	)
+	// bind looks at every element of the body it is given, whatever the body
+	// begins with: a body that already starts with an operator (bound before in
+	// another context, put together by hand, changed since) still has its other
+	// operator names replaced, also in nested bodies
+	progs = append(progs,
+		prog{"/p [ /pop load {add} ] cvx bind def /add {mul} def 5 3 9 p exec", "8"},
+		prog{"/p { pop 0 } bind def /p load 1 {add} 0 get put /p load bind pop /add {mul} def 5 3 9 p", "8"},
+		prog{"1 dict begin /add {sub} def userdict /p {pop add} bind put end /p load bind pop /add {mul} def 5 3 9 p", "8"},
+		prog{"1 dict begin /add {sub} def userdict /p {pop {add}} bind put end /p load bind pop /add {mul} def 5 3 9 p exec", "8"},
+		prog{"1 dict begin /add {sub} def userdict /p {pop add} bind put end /add {mul} def 5 3 9 p", "15"},
+	)
 	// a name whose value is an executable name is resolved again, at the time it is executed
 	progs = append(progs,
 		prog{"/plus {add} 0 get def 1 2 plus", "3"},
